@@ -9,12 +9,7 @@ HERE = os.path.dirname(os.path.dirname(os.path.abspath(__file__)))
 # property id -> (technique, level text, level note, design ref)
 CLAIMED = {}
 
-NOT_APPLICABLE = {
-    "C04": "Needs CPython executing the *emitted* program as oracle (inspect.signature, ArgumentParser); "
-    "a static analysis of the emitter sees AST constructor calls, not the program they denote for a "
-    "given input. No structural clause is a meaningful necessary condition beyond what the "
-    "AST-vs-mock tests already pin (DESIGN.md §2 C04).",
-}
+NOT_APPLICABLE = {}
 
 PENDING = "not claimed (yet): the static rule set for this property is designed in DESIGN.md §2 but no check is registered"
 
@@ -344,6 +339,26 @@ claim(
     "x 8 flag combinations; these are run-time strings produced by index arithmetic over the input text and no "
     "structural argument in reach bounds them. The claim must not be read as covering the behaviour.",
     "DESIGN.md §2 C01 and §7.7",
+)
+
+claim(
+    "C04",
+    "def-use shape of the emitted function's argument/default lists; constant folding of the branch that "
+    "builds a parameter's default node, evaluated for an entry without a `default` key (function and class "
+    "emitters, helper calls and applied lambdas inlined); syntactic entailment between the conditions under "
+    "which the argparse emitter writes `required=True` and `default=`",
+    "Decides four NECESSARY clauses only: arguments and defaults of the emitted function come from one iterable "
+    "and are routed to the same side of arguments(...) (else inspect.signature pairs a default with the wrong "
+    "parameter); a parameter described without a default gets no default node in the emitted function, and no "
+    "value in the emitted annotated class attribute; the argparse emitter never writes required=True together "
+    "with default= (else parse_args([]) exits instead of yielding the described default). Three of these fail "
+    "on today's tree by upstream convention pinned by the suite's mocks — each is hand-confirmed by executing the "
+    "emitted code once and listed in known_findings.json.",
+    "NOT decided — and this is most of the property: that the emitted program compiles and, executed by CPython, "
+    "has the described attributes, signature and ArgumentParser for every interface description (the oracle is the "
+    "interpreter itself); type conversion (`type=bool` turns the text 'False' into True), choices, help text; "
+    "unparse/re-parse equality. The claim must not be read as covering the behaviour.",
+    "DESIGN.md §2 C04 and §7.9",
 )
 
 
